@@ -26,7 +26,8 @@ CONSTANTS Kinds,        \* block kinds: "plain", "price" (reward price update), 
           MaxFaults,    \* restarts + crashes per behaviour
           Faults,       \* subset of {"restart", "crash", "sync"}
           AtomicApp,    \* TRUE: app records are written in one atomic batch (model of a repaired Commit)
-          SnapItems     \* the application records a state-sync snapshot carries besides the state tree (coreV2/appdb/snapshot.go)
+          SnapItems,    \* the application records a state-sync snapshot carries besides the state tree (coreV2/appdb/snapshot.go)
+          SnapExportsLatest  \* FALSE: a snapshot of height h exports tree version h (the code); TRUE: whatever version is the latest when it runs
 
 VARIABLES disk, mem, ideal, tm, phase, pend, faults, scn
 dvars == <<disk, mem, ideal, tm, phase, pend, faults, scn>>
@@ -44,6 +45,11 @@ Exec(r, k, H) ==
              !.versions = IF k = "version" THEN @ + 1 ELSE @,
              !.vals = IF k = "vals" THEN H ELSE @,
              !.height = H]
+\* snapshots: `snap` = height of the node's own latest snapshot, `snapc` = its content, `late` = height whose snapshot has
+\* not started yet (the background goroutine of Commit is delayed: it will run during the next block's commit)
+NoSnap == [tree |-> <<>>, hash |-> <<>>, height |-> 0, emission |-> 0, price |-> 0, versions |-> 0, vals |-> 0, times |-> <<>>]
+BlankDisk == [tree |-> (0 :> <<>>), hash |-> <<>>, height |-> 0, emission |-> 0, price |-> 0, versions |-> 0, vals |-> 0, times |-> <<>>,
+              snap |-> 0, snapc |-> NoSnap, late |-> 0]
 Dirty0 == [versions |-> FALSE, emission |-> FALSE, price |-> FALSE, vals |-> FALSE]
 DirtyAfter(d, k) == [versions |-> d.versions \/ k = "version", emission |-> TRUE, price |-> d.price \/ k = "price", vals |-> k = "vals"]
 
@@ -83,7 +89,7 @@ IdealObs == [height |-> ideal.height, hash |-> ideal.st, st |-> ideal.st, emissi
 
 \* ---------------------------------------------------------------- behaviours
 Init ==
-   /\ disk = [tree |-> (0 :> <<>>), hash |-> <<>>, height |-> 0, emission |-> 0, price |-> 0, versions |-> 0, vals |-> 0, times |-> <<>>, snap |-> 0]
+   /\ disk = BlankDisk
    /\ mem = [r |-> Rec0, dirty |-> [Dirty0 EXCEPT !.price = TRUE], alive |-> TRUE]     \* InitChain calls SetPrice: the price flag starts dirty
    /\ ideal = Rec0
    /\ tm = [height |-> 0, kind |-> "plain"]     \* the block Tendermint has stored last
@@ -105,18 +111,37 @@ Block(k) ==
    /\ scn' = Append(scn, [op |-> "block", kind |-> k])
    /\ UNCHANGED <<disk, faults>>
 
+\* content of a snapshot of height h taken from disk d, exporting tree version v
+Range(sq) == {sq[i] : i \in DOMAIN sq}
+SItem(d, f) == IF f \in SnapItems THEN d[f] ELSE NoSnap[f]
+Capture(d, h, v) == [tree |-> d.tree[v], hash |-> SItem(d, "hash"), height |-> SItem(d, "height"), emission |-> SItem(d, "emission"),
+                     price |-> SItem(d, "price"), versions |-> SItem(d, "versions"), vals |-> SItem(d, "vals"), times |-> SItem(d, "times")]
+
 \* one database write of the commit; with AtomicApp the app records go in one step
 WriteOne ==
    /\ phase = "committing" /\ mem.alive /\ pend # <<>>
    /\ LET batch == IF AtomicApp /\ Head(pend) \in AppWrites THEN pend ELSE <<Head(pend)>>
           RECURSIVE ApplyAll(_, _)
           ApplyAll(d, ws) == IF ws = <<>> THEN d ELSE ApplyAll(ApplyWrite(d, mem, Head(ws)), Tail(ws))
+          d1 == ApplyAll(disk, batch)
+          \* a delayed snapshot of the previous height starts once this block's tree is saved: the application records on
+          \* disk are still those of the previous height (they are written after the tree)
+          d2 == IF "tree" \in Range(batch) /\ disk.late > 0
+                THEN [d1 EXCEPT !.snap = disk.late, !.late = 0,
+                                !.snapc = Capture(d1, disk.late, IF SnapExportsLatest THEN mem.r.height ELSE disk.late)]
+                ELSE d1
       IN /\ pend' = SubSeq(pend, Len(batch) + 1, Len(pend))
-         \* when the last write of the commit is done the node takes the snapshot of this height (background goroutine of Commit)
-         /\ disk' = IF pend' = <<>> THEN [ApplyAll(disk, batch) EXCEPT !.snap = mem.r.height] ELSE ApplyAll(disk, batch)
+         \* when the last write of the commit is done the node takes the snapshot of this height (background goroutine of
+         \* Commit) -- at once, or late (during the next block)
+         /\ IF pend' # <<>> THEN disk' = d2 /\ scn' = scn
+            ELSE \E lateChoice \in (IF "latesnap" \in Faults THEN BOOLEAN ELSE {FALSE}) :
+                    IF lateChoice THEN /\ disk' = [d2 EXCEPT !.late = mem.r.height]
+                                       /\ scn' = [scn EXCEPT ![Len(scn)] = @ @@ [lateSnap |-> TRUE]]
+                    ELSE /\ disk' = [d2 EXCEPT !.snap = mem.r.height, !.snapc = Capture(d2, mem.r.height, mem.r.height)]
+                         /\ scn' = scn
    /\ IF pend' = <<>> THEN /\ phase' = "idle" /\ mem' = [mem EXCEPT !.dirty = DirtyAfterCommit(@)]
                       ELSE /\ phase' = "committing" /\ mem' = mem
-   /\ UNCHANGED <<ideal, tm, faults, scn>>
+   /\ UNCHANGED <<ideal, tm, faults>>
 
 \* the process dies between two writes of a commit (the last completed write is recorded in the scenario)
 Crash ==
@@ -140,7 +165,7 @@ Recover ==
          THEN LET m1 == [m0 EXCEPT !.r = Exec(m0.r, tm.kind, tm.height), !.dirty = DirtyAfter(m0.dirty, tm.kind)]
                   RECURSIVE ApplyAll(_, _)
                   ApplyAll(d, ws) == IF ws = <<>> THEN d ELSE ApplyAll(ApplyWrite(d, m1, Head(ws)), Tail(ws))
-              IN /\ disk' = [ApplyAll(disk, Writes(m1)) EXCEPT !.snap = tm.height]
+              IN /\ disk' = LET dd == ApplyAll(disk, Writes(m1)) IN [dd EXCEPT !.snap = tm.height, !.late = 0, !.snapc = Capture(dd, tm.height, tm.height)]
                  /\ mem' = [m1 EXCEPT !.dirty = DirtyAfterCommit(@)]
                  /\ phase' = "idle"
          ELSE /\ mem' = m0 /\ disk' = disk /\ phase' = "stuck"
@@ -153,31 +178,46 @@ Restart ==
    /\ tm.height > 0                                   \* "stopped after any committed block": not between InitChain and the first block
    /\ phase = "idle" /\ mem.alive /\ faults < MaxFaults
    /\ mem' = Load(disk)
+   /\ disk' = [disk EXCEPT !.late = 0]               \* a snapshot that had not started dies with the process
    /\ faults' = faults + 1
    /\ scn' = Append(scn, [op |-> "restart"])
-   /\ UNCHANGED <<disk, ideal, tm, phase, pend>>
+   /\ UNCHANGED <<ideal, tm, phase, pend>>
 
 \* State sync (C29): the producing node's snapshot of the last committed height = the tree version of that height plus the
 \* application records listed in SnapItems, read from its disk; a blank node writes them to its own disk and loads its
 \* caches from there.  The restored node replaces the producer; the ideal node keeps executing every block.
-BlankDisk == [tree |-> (0 :> <<>>), hash |-> <<>>, height |-> 0, emission |-> 0, price |-> 0, versions |-> 0, vals |-> 0, times |-> <<>>, snap |-> 0]
-Item(f) == IF f \in SnapItems THEN disk[f] ELSE BlankDisk[f]
-Restored == [tree |-> (disk.height :> disk.tree[disk.height]) @@ BlankDisk.tree,
-             hash |-> Item("hash"), height |-> Item("height"), emission |-> Item("emission"), price |-> Item("price"),
-             versions |-> Item("versions"), vals |-> Item("vals"), times |-> Item("times"),
-             snap |-> 0]                              \* the restored node holds no snapshot of its own until it commits a block
+\* a blank node that received snapshot content c (taken at height h)
+RestoredFrom(c, h) == [BlankDisk EXCEPT !.tree = (h :> c.tree) @@ BlankDisk.tree, !.hash = c.hash, !.height = c.height, !.emission = c.emission,
+                                         !.price = c.price, !.versions = c.versions, !.vals = c.vals, !.times = c.times]
 Sync ==
    /\ "sync" \in Faults
    /\ tm.height > 0
    /\ phase = "idle" /\ mem.alive /\ faults < MaxFaults
    /\ disk.snap = disk.height                       \* the producer has a snapshot of its last committed height
-   /\ disk' = Restored
-   /\ mem' = Load(Restored)
+   /\ disk' = RestoredFrom(disk.snapc, disk.snap)
+   /\ mem' = Load(disk')
    /\ faults' = faults + 1
-   /\ scn' = Append(scn, [op |-> "statesync"])
+   /\ scn' = Append(scn, [op |-> "statesync", back |-> 0])
+   /\ UNCHANGED <<ideal, tm, phase, pend>>
+\* the latest snapshot is one block old (it was taken late, during the commit of the block after it): the restored node
+\* executes the block it is behind, as Tendermint feeds it
+SyncBack ==
+   /\ "sync" \in Faults
+   /\ phase = "idle" /\ mem.alive /\ faults < MaxFaults
+   /\ disk.snap > 0 /\ disk.snap = disk.height - 1 /\ disk.height = tm.height
+   /\ LET d0 == RestoredFrom(disk.snapc, disk.snap)
+          m0 == Load(d0)
+          m1 == [m0 EXCEPT !.r = Exec(m0.r, tm.kind, tm.height), !.dirty = DirtyAfter(m0.dirty, tm.kind)]
+          RECURSIVE ApplyAll(_, _)
+          ApplyAll(d, ws) == IF ws = <<>> THEN d ELSE ApplyAll(ApplyWrite(d, m1, Head(ws)), Tail(ws))
+          d1 == ApplyAll(d0, Writes(m1))
+      IN /\ disk' = [d1 EXCEPT !.snap = tm.height, !.snapc = Capture(d1, tm.height, tm.height)]
+         /\ mem' = [m1 EXCEPT !.dirty = DirtyAfterCommit(@)]
+   /\ faults' = faults + 1
+   /\ scn' = Append(scn, [op |-> "statesync", back |-> 1])
    /\ UNCHANGED <<ideal, tm, phase, pend>>
 
-Next == (\E k \in Kinds : Block(k)) \/ WriteOne \/ Crash \/ Recover \/ Restart \/ Sync
+Next == (\E k \in Kinds : Block(k)) \/ WriteOne \/ Crash \/ Recover \/ Restart \/ Sync \/ SyncBack
 Spec == Init /\ [][Next]_dvars
 
 \* ---------------------------------------------------------------- properties
